@@ -9,7 +9,7 @@ git apply $wd/out/patch.diff || { echo "PATCH DOES NOT APPLY"; exit 2; }
 export CARGO_NET_OFFLINE=true
 echo "== existing suite WITH patch"; cargo test --workspace --no-fail-fast --offline 2>&1 | grep "^test result" | awk '{p+=$4; f+=$6} END {print "passed="p" failed="f}'
 mkdir -p $crate/tests; cp $demo $crate/tests/$name.rs
-echo "== demo WITH patch"; cargo test -p $(basename $crate) --test $name --offline $feat 2>&1 | grep "^test result\|panicked" | head -5
+echo "== demo WITH patch"; cargo test -p $(basename $crate) --test $name --offline $feat > /tmp/confirm_$$.log 2>&1; grep "panicked" /tmp/confirm_$$.log | head -3; grep "^test result" /tmp/confirm_$$.log; rm -f /tmp/confirm_$$.log
 git apply -R $wd/out/patch.diff
 echo "== demo WITHOUT patch"; cargo test -p $(basename $crate) --test $name --offline $feat 2>&1 | grep "^test result"
 rm -f $crate/tests/$name.rs
